@@ -883,7 +883,10 @@ namespace chaiscript {
         const std::string &loop_var_name = this->children[0]->text;
         Boxed_Value range_expression_result = this->children[1]->eval(t_ss);
 
-        const auto do_loop = [&loop_var_name, &t_ss, this](const auto &ranged_thing) {
+        // t_owner shares ownership of the container (it is empty when the container is only referenced): loop
+        // variables that refer to an element keep the container alive, so a closure or reference that
+        // outlives the loop never reads an element of a destroyed temporary container
+        const auto do_loop = [&loop_var_name, &t_ss, this](const auto &ranged_thing, const auto &t_owner) {
           try {
             for (auto &&loop_var : ranged_thing) {
               // This scope push and pop might not be the best thing for perf
@@ -891,7 +894,8 @@ namespace chaiscript {
               chaiscript::eval::detail::Scope_Push_Pop spp(t_ss);
               /// to-do make this if-constexpr with C++17 branch
               if (!std::is_same<std::decay_t<decltype(loop_var)>, Boxed_Value>::value) {
-                t_ss.add_get_object(loop_var_name, Boxed_Value(std::ref(loop_var)));
+                t_ss.add_get_object(loop_var_name,
+                                    Boxed_Value(std::shared_ptr<std::remove_reference_t<decltype(loop_var)>>(t_owner, &loop_var)));
               } else {
                 t_ss.add_get_object(loop_var_name, Boxed_Value(loop_var));
               }
@@ -907,9 +911,12 @@ namespace chaiscript {
         };
 
         if (range_expression_result.get_type_info().bare_equal_type_info(typeid(std::vector<Boxed_Value>))) {
-          return do_loop(boxed_cast<const std::vector<Boxed_Value> &>(range_expression_result));
+          return do_loop(boxed_cast<const std::vector<Boxed_Value> &>(range_expression_result), std::shared_ptr<const void>());
         } else if (range_expression_result.get_type_info().bare_equal_type_info(typeid(std::map<std::string, Boxed_Value>))) {
-          return do_loop(boxed_cast<const std::map<std::string, Boxed_Value> &>(range_expression_result));
+          using Map = std::map<std::string, Boxed_Value>;
+          return do_loop(boxed_cast<const Map &>(range_expression_result),
+                         range_expression_result.is_ref() ? std::shared_ptr<const Map>()
+                                                          : boxed_cast<std::shared_ptr<const Map>>(range_expression_result));
         } else {
           const auto range_funcs = get_function("range", m_range_loc);
           const auto empty_funcs = get_function("empty", m_empty_loc);
